@@ -209,7 +209,7 @@ pub fn build_cases(cfg: &Cfg) -> Vec<Case> {
             for w in words.iter().take(limit1) {
                 cases.push(Case { subgens: vec![w.clone()], ..base.clone() });
             }
-            for _ in 0..cfg.tier.pick(120, 600) {
+            for _ in 0..cfg.tier.pick(250, 600) {
                 let a = words[rng.below(words.len())].clone();
                 let b = words[rng.below(words.len())].clone();
                 cases.push(Case { subgens: vec![a, b], ..base.clone() });
@@ -232,7 +232,7 @@ pub fn build_cases(cfg: &Cfg) -> Vec<Case> {
         }
     }
     // hostile presentations (late collapse, redundant and trivial generators) with multi-generator subgroups
-    for (name, p) in groupcorpus::hostile_presentations(seed, cfg.tier.pick(300, 3000)) {
+    for (name, p) in groupcorpus::hostile_presentations(seed, cfg.tier.pick(3000, 12000)) {
         let n = p.ngens;
         let fin = groups::order(&p, 3000).is_some();
         if fin {
@@ -265,7 +265,7 @@ pub fn build_cases(cfg: &Cfg) -> Vec<Case> {
         }
     }
     // random presentations: small groups with many coincidences
-    for (k, p) in groupcorpus::random_presentations(seed, cfg.tier.pick(600, 6000)).into_iter().enumerate() {
+    for (k, p) in groupcorpus::random_presentations(seed, cfg.tier.pick(6000, 30000)).into_iter().enumerate() {
         if groups::order(&p, 2000).is_some() {
             let n = p.ngens;
             cases.push(Case { name: format!("random presentation #{}", k), pres: p.clone(), subgens: vec![], known_order: None });
